@@ -3,6 +3,7 @@ package vapp
 import (
 	"encoding/json"
 	"math/big"
+	"sort"
 	"time"
 
 	ethcommon "github.com/ethereum/go-ethereum/common"
@@ -27,24 +28,25 @@ import (
 
 // GenesisSpec is the abstract description of a genesis; everything in it is deterministic.
 type GenesisSpec struct {
-	ChainID      string         `json:"chain_id"`
-	OLTDecimal   int64          `json:"olt_decimal"` // 2 in the small-amount family: 1 OLT = 100 units
-	Fork         int64          `json:"fork"`        // FrankensteinBlock; 0 = disabled
-	Accounts     []string       `json:"accounts"`    // names; each gets Balance units of OLT
-	Balance      int64          `json:"balance"`     // units of OLT per account and per stake account
-	Validators   []GenValidator `json:"validators"`  // initial validators with their stake (whole OLT)
-	Candidates   []string       `json:"candidates"`  // further validator identities without initial stake
-	Witnesses    []string       `json:"witnesses"`   // validator names that are ethereum witnesses
-	Staking      StakingOpt     `json:"staking"`
-	Evidence     EvidenceOpt    `json:"evidence"`
-	Proposal     ProposalOpt    `json:"proposal"`
-	Rewards      RewardsOpt     `json:"rewards"`
-	Ons          OnsOpt         `json:"ons"`
-	RewardPool   int64          `json:"reward_pool"`    // units preloaded into the rewards pool
-	MaxGas       int64          `json:"max_gas"`        // consensus param; -1 unlimited
-	EthSupplyCap string         `json:"eth_supply_cap"` // wei
-	OtherCurr    bool           `json:"other_currencies"`
-	EthBalance   int64          `json:"eth_balance"` // wrapped ETH units given to every account at genesis (with matching supply counter)
+	ChainID      string           `json:"chain_id"`
+	OLTDecimal   int64            `json:"olt_decimal"` // 2 in the small-amount family: 1 OLT = 100 units
+	Fork         int64            `json:"fork"`        // FrankensteinBlock; 0 = disabled
+	Accounts     []string         `json:"accounts"`    // names; each gets Balance units of OLT
+	Balance      int64            `json:"balance"`     // units of OLT per account and per stake account
+	Validators   []GenValidator   `json:"validators"`  // initial validators with their stake (whole OLT)
+	Candidates   []string         `json:"candidates"`  // further validator identities without initial stake
+	Witnesses    []string         `json:"witnesses"`   // validator names that are ethereum witnesses
+	Staking      StakingOpt       `json:"staking"`
+	Evidence     EvidenceOpt      `json:"evidence"`
+	Proposal     ProposalOpt      `json:"proposal"`
+	Rewards      RewardsOpt       `json:"rewards"`
+	Ons          OnsOpt           `json:"ons"`
+	RewardPool   int64            `json:"reward_pool"`    // units preloaded into the rewards pool
+	MaxGas       int64            `json:"max_gas"`        // consensus param; -1 unlimited
+	EthSupplyCap string           `json:"eth_supply_cap"` // wei
+	OtherCurr    bool             `json:"other_currencies"`
+	EthBalance   int64            `json:"eth_balance"`
+	Claims       map[string]int64 `json:"claims"` // delegation reward claims preloaded at genesis (units) // wrapped ETH units given to every account at genesis (with matching supply counter)
 }
 
 type GenValidator struct {
@@ -120,6 +122,7 @@ func DefaultGenesis() GenesisSpec {
 		Rewards:    RewardsOpt{Interval: 3, SecondsPerCycle: 3000000, Cycle: 3, YearCloseWindow: 1000000, YearShares: []int64{600000, 400000}, Burnout: 50},
 		Ons:        OnsOpt{PerBlock: 10, Base: 1000},
 		RewardPool: 100000000, MaxGas: -1, EthSupplyCap: "2000000000",
+		Claims: map[string]int64{"a1": 600, "a2": 400},
 	}
 }
 
@@ -184,6 +187,12 @@ func BuildGenesis(gs GenesisSpec) *Genesis {
 	for _, n := range gs.Witnesses {
 		witness = append(witness, mkStake(g.Validators[n], 0))
 	}
+	// strangers: accounts that are not funded at genesis but may appear as recipients or senders
+	for _, n := range []string{"n0", "n1", "n2"} {
+		a := NewAccount(n)
+		g.Accounts[n] = a
+		g.Names[Hex(a.Addr)] = n
+	}
 	if gs.RewardPool > 0 {
 		balances = append(balances, consensus.BalanceState{Address: keys.Address(RewardPoolAddr), Currency: "OLT", Amount: amt(gs.RewardPool)})
 	}
@@ -247,6 +256,15 @@ func BuildGenesis(gs GenesisSpec) *Genesis {
 		Currencies: currencies, Governance: gov, Balances: balances, Staking: staking, Witness: witness,
 		Rewards: rewards.RewardMasterState{RewardState: rewards.NewRewardState(), CumuState: rewards.NewRewardCumuState()},
 		Domains: []consensus.DomainState{}, Fees: []consensus.BalanceState{},
+	}
+	var cn []string
+	for n := range gs.Claims {
+		cn = append(cn, n)
+	}
+	sort.Strings(cn)
+	for _, n := range cn {
+		a := amt(gs.Claims[n])
+		state.DelegatorRew.BalanceList = append(state.DelegatorRew.BalanceList, network_delegation.Reward{Amount: &a, Address: g.Acct(n).Addr})
 	}
 	raw, err := state.RawJSON()
 	if err != nil {
